@@ -171,3 +171,14 @@ def bits_equal(a, b):
 
 def sigma_max(L):
   return float(np.linalg.norm(np.asarray(L, dtype=float), 2)) if np.size(L) else 0.0
+
+
+def safe_norm(v, axis=None, keepdims=False):
+  """Euclidean norm without intermediate under/overflow."""
+  v = np.asarray(v, dtype=float)
+  m = np.max(np.abs(v), axis=axis, keepdims=True, initial=0.0)
+  m = np.where(m > 0, m, 1.0)
+  r = m * np.sqrt(np.sum((v / m) ** 2, axis=axis, keepdims=True))
+  if not keepdims:
+    r = np.squeeze(r, axis=axis) if axis is not None else float(np.squeeze(r))
+  return r
